@@ -25,18 +25,24 @@ import (
 func TestVerif_C36(t *testing.T) {
 	run := verifkit.Start(t, "C36", "shutdown")
 	defer run.Finish()
-	run.Rule("a case = one single-node Refinery (PRNG: SendDelay 2ms|30s, BatchTimeout 10ms|30s, MaxBatchSize, workers), 8-20 traces (with or without root span) posted in sequential batches, and a graceful shutdown requested after a PRNG-chosen number of batches (0..all), with or without first letting the collector work through its queues; the remaining batches are posted during and after the shutdown. Non-trivial when spans acknowledged with 202 before the shutdown request existed; distinct = (SendDelay, BatchTimeout, quiesced, shutdown point, kinds of traces in memory)")
+	run.Rule("a case = one single-node Refinery (PRNG: SendDelay 2ms|30s, BatchTimeout 10ms|30s, MaxBatchSize, workers; cases 0 and 1 mod 4 are fixed to short SendDelay + quiesced with long resp. short BatchTimeout), 8-20 traces (with or without root span) posted in sequential batches, and a graceful shutdown requested after a PRNG-chosen number of batches (0..all), with or without first letting the collector work through its queues; the remaining batches are posted during and after the shutdown. Non-trivial when spans acknowledged with 202 before the shutdown request existed; distinct = (SendDelay, BatchTimeout, quiesced, shutdown point, kinds of traces in memory)")
 	run.Assume("the sampler keeps every trace (DeterministicSampler rate 1), so every span acknowledged before the shutdown request belongs to a kept trace")
 	run.Assume("only spans whose 202 was received before shutdown was requested are required at Honeycomb; what is acknowledged during the shutdown is not judged")
 	run.Assume("a goroutine counts as left running when it has a frame in, or was created by, a function of a /repo package and is still there after polling the goroutine dump to a fixpoint")
 
-	run.Cases("shutdown", run.N(8, 60), func(ci int, rng *verifkit.Rand) {
+	run.Cases("shutdown", run.N(10, 500), func(ci int, rng *verifkit.Rand) {
 		sendDelay := verifkit.Pick(rng, 2*time.Millisecond, 30*time.Second)
 		batchTimeout := verifkit.Pick(rng, 10*time.Millisecond, 30*time.Second)
 		maxBatch := verifkit.Pick(rng, 1, 7, 50, 500)
 		workers := rng.Range(1, 3)
 		quiesce := rng.Bool()
 		reloadInterval := rng.Bool()
+		switch ci % 4 { // two fixed strata so that every tier has shutdowns with decided traces
+		case 0: // decided traces whose spans are still waiting in an upstream batch
+			sendDelay, quiesce, batchTimeout = 2*time.Millisecond, true, 30*time.Second
+		case 1: // decided traces already sent on
+			sendDelay, quiesce, batchTimeout = 2*time.Millisecond, true, 10*time.Millisecond
+		}
 		cl, err := e2Start(e2Options{Nodes: 1, Configure: func(_ int, cfg *config.MockConfig) {
 			cfg.GetTracesConfigVal.SendDelay = config.Duration(sendDelay)
 			cfg.GetTracesConfigVal.TraceTimeout = config.Duration(verifkit.Pick(rng, 60*time.Second, 300*time.Second))
